@@ -499,7 +499,7 @@ func (s *runnerSut) start(role spectypes.BeaconRole, slot uint64) {
 // ---- messages ----------------------------------------------------------------------------------------------
 
 type msgRef struct {
-	kind    string // "T" transcript message, "D" crafted decided
+	kind    string // "T" transcript message, "U" the same with every partial signature replaced by a wrong one, "D" crafted decided
 	trRole  spectypes.BeaconRole
 	trSlot  uint64
 	k       int
@@ -511,20 +511,33 @@ type msgRef struct {
 }
 
 func (r msgRef) String() string {
-	if r.kind == "T" {
-		return fmt.Sprintf("T %s %d %d %s %d", roleName[r.trRole], r.trSlot, r.k, roleName[r.asRole], b01(r.ownPK))
+	if r.kind == "T" || r.kind == "U" {
+		return fmt.Sprintf("%s %s %d %d %s %d", r.kind, roleName[r.trRole], r.trSlot, r.k, roleName[r.asRole], b01(r.ownPK))
 	}
 	return fmt.Sprintf("D %s %d %s %d %s %d", roleName[r.trRole], r.height, r.valKind, r.signers, roleName[r.asRole], b01(r.ownPK))
 }
 
 func (s *runnerSut) resolve(r msgRef) *spectypes.SSVMessage {
 	var m *spectypes.SSVMessage
-	if r.kind == "T" {
+	if r.kind == "T" || r.kind == "U" {
 		t := transcript(r.trRole, r.trSlot)
 		if r.k >= len(t) {
 			return nil
 		}
 		m = t[r.k]
+		if r.kind == "U" && m.MsgType == spectypes.SSVPartialSignatureMsgType {
+			pm := &spectypes.SignedPartialSignatureMessage{}
+			if pm.Decode(m.Data) == nil {
+				other := sha256.Sum256([]byte("another message"))
+				for _, im := range pm.Message.Messages {
+					if sk := keySet(4).Shares[im.Signer]; sk != nil {
+						im.PartialSignature = sk.SignByte(other[:]).Serialize()
+					}
+				}
+				data, _ := pm.Encode()
+				m = &spectypes.SSVMessage{MsgType: m.MsgType, MsgID: m.MsgID, Data: data}
+			}
+		}
 	} else {
 		m = craftedDecided(r.trRole, r.height, r.valKind, r.signers)
 	}
@@ -738,8 +751,8 @@ func (s *runnerSut) replayOp(w []string) {
 	case "RSTART":
 		s.start(roleOf(w[1]), u(w[2]))
 	case "RMSG":
-		if w[1] == "T" {
-			s.deliver(msgRef{kind: "T", trRole: roleOf(w[2]), trSlot: u(w[3]), k: int(u(w[4])), asRole: roleOf(w[5]), ownPK: w[6] == "1"})
+		if w[1] == "T" || w[1] == "U" {
+			s.deliver(msgRef{kind: w[1], trRole: roleOf(w[2]), trSlot: u(w[3]), k: int(u(w[4])), asRole: roleOf(w[5]), ownPK: w[6] == "1"})
 		} else {
 			s.deliver(msgRef{kind: "D", trRole: roleOf(w[2]), height: u(w[3]), valKind: w[4], signers: int(u(w[5])), asRole: roleOf(w[6]), ownPK: w[7] == "1"})
 		}
@@ -805,7 +818,19 @@ func runnerGen(out *hx.Out, seed uint64, n int, roles []string) {
 			cons = cons || cr == role
 		}
 		noise := func() { // one message that must not cause any signature
-			switch r.Intn(7) {
+			switch r.Intn(8) {
+			case 7: // a partial-signature message of this duty whose shares are wrong
+				var ks []int
+				for k := range T {
+					if T[k].MsgType == spectypes.SSVPartialSignatureMsgType {
+						ks = append(ks, k)
+					}
+				}
+				if len(ks) > 0 {
+					ref := own(ks[r.Intn(len(ks))], S)
+					ref.kind = "U"
+					s.deliver(ref)
+				}
 			case 0: // stale duty
 				t := transcript(role, S-1)
 				s.deliver(own(r.Intn(len(t)), S-1))
